@@ -19,6 +19,14 @@ CLAIMED = {
         ref='4.1, 5/C02'),
 }
 
+CLAIMED['C08'] = dict(
+    technique='exhaustive path enumeration of the dispatch function (abstract interpretation with RAII/exception semantics) + protocol automaton; wrapper forwarding check',
+    text='Every instantiation shape of the central dispatch tao::pegtl::match<> (five action shapes x apply mode x rewind mode x control with/without unwind x '
+         'enable on/off) is enumerated completely, exceptional exits included; the table of (hook sequence, exit, result, cursor) must satisfy H1-H7 of DESIGN.md 4.3. '
+         'Every hook of every shipped control wrapper (remove_first_state, remove_last_states, shuffle_states, state_control) must forward exactly once with the documented '
+         'state permutation. The balance start = success + failure + unwind then follows for every rule attempt of every grammar and input. One recorded finding (D11).',
+    ref='4.3, 5/C08')
+
 NOT_YET = 'check not built yet in this round (see DESIGN.md section 10 for the order of construction); no claim is made'
 
 NA_REASONS = {}
